@@ -185,6 +185,27 @@ pub fn run(name: &str, a: &Args) -> Option<String> {
         "weekday_utc" => format!("{}", u8::from(epoch(a, 0).weekday_utc())),
         "next" => pep(epoch(a, 0).next(wd(a.z(3)))),
         "prev" => pep(epoch(a, 0).previous(wd(a.z(3)))),
+        "next_at" => {
+            let (e, w) = (epoch(a, 0), wd(a.z(3)));
+            pep(if a.z(4) == 0 { e.next_weekday_at_midnight(w) } else { e.next_weekday_at_noon(w) })
+        }
+        "prev_at" => {
+            let (e, w) = (epoch(a, 0), wd(a.z(3)));
+            pep(if a.z(4) == 0 { e.previous_weekday_at_midnight(w) } else { e.previous_weekday_at_noon(w) })
+        }
+        "with_hms" => pep(epoch(a, 0).with_hms_strict(a.z(3) as u64, a.z(4) as u64, a.z(5) as u64)),
+        "accessors" => {
+            let e = epoch(a, 0);
+            let (y, doy) = e.year_days_of_year();
+            assert!(y == e.year() && doy.to_bits() == e.day_of_year().to_bits());
+            format!("{} {} {} {} {} {} {} {}", e.year(), (e.month_name() as u8), e.hours(), e.minutes(), e.seconds(),
+                    e.milliseconds(), e.microseconds(), e.nanoseconds())
+        }
+        "eadd_f64" => {
+            let x = f64::from_bits(a.z(3) as u64);
+            let r = epoch(a, 0) + x;
+            pep(r)
+        }
         "wd_from_u8" => format!("{}", u8::from(Weekday::from(a.z(0) as u8))),
         "wd_from_i8" => format!("{}", u8::from(Weekday::from(a.z(0) as i8))),
         "wd_add" => format!("{}", u8::from(wd(a.z(0)) + wd(a.z(1)))),
